@@ -24,7 +24,7 @@ from datetime import date, time, timedelta
 
 from .. import corpus
 from ..codec import load_db, validate
-from ..common import Check, workdir
+from ..common import REPO, Check, workdir
 from .c02 import payload_of_actisense
 
 LEVEL = "model_checking"
@@ -55,11 +55,12 @@ def canon_parsed(x) -> str:
     return json.dumps(x, ensure_ascii=False)
 
 
-def message_record(msg, encodable: bool) -> dict:
+def message_record(msg, encodable: bool, text: str | None = None, encode_json=None) -> dict:
+    """text: the JSON as another route printed it (the command line); encode_json(text) -> Actisense line by that route"""
     from nmea2000.encoder import NMEA2000Encoder
     from nmea2000.message import NMEA2000Message
     rec = {"kind": "msg", "parses": False, "hdrSame": False, "f": [], "back": "na"}
-    text = msg.to_json()
+    text = msg.to_json() if text is None else text
     try:
         obj = json.loads(text)
         rec["parses"] = True
@@ -84,7 +85,7 @@ def message_record(msg, encodable: bool) -> dict:
             return rec
         try:
             m2 = NMEA2000Message.from_json(text)
-            b1 = payload_of_actisense(NMEA2000Encoder().encode_actisense(m2))
+            b1 = payload_of_actisense(NMEA2000Encoder().encode_actisense(m2) if encode_json is None else encode_json(text))
             rec["back"] = "same" if b0 == b1 else "differs"
             # the parsed message object itself: same PGN, id and addressing (zero is an address and a priority)
             if (m2.PGN, m2.id, m2.source, m2.destination, m2.priority) != (msg.PGN, msg.id, msg.source, msg.destination, msg.priority):
@@ -118,6 +119,9 @@ def dump_histories(db, rng: random.Random, wd, tier: str):
         lines.append(corpus.basic_string(127250, bytes([i, 0x10 + i, 0x20, 0, 0, 0, 0, 0xFC]), src=3))
         lines.append(corpus.basic_string(130306, bytes([i, 0x10 + i, 0x01, 0x20, 0x03, 0xFA, 0xFF, 0xFF]), src=4))
         lines.append(corpus.basic_string(65280, bytes([0x3F, 0x9F, i, 0, 0, 0, 0xFF, 0xFF]), src=5))
+    # ISO address claims (the decoder treats them specially: they feed its source map) from three sources, one of them twice
+    for src_ in (3, 4, 5, 3):
+        lines.append(CLAIM % src_)
     for txt in (("plain", "ascii", "text"), ("wórld", "Café del Mar", "x"), ("漢字", "Γειά", "\U0001F6A4")):
         p = cfginfo(*txt)
         lines.append(corpus.basic_string(126998, p, src=6))
@@ -154,15 +158,17 @@ def dump_histories(db, rng: random.Random, wd, tier: str):
     rng.shuffle(lines)
     filters = [([], []), ([127250], []), ([], ["windData"]), ([], ["furunoHeave"]), ([130306], ["configurationInformation"]),
                ([65280, 126998], []), ([], ["vesselHeading", "configurationInformation"]), ([1], ["noSuchId"]),
-               ([60416], []), ([128275], []), ([], ["distanceLog"])]
+               ([60416], []), ([128275], []), ([], ["distanceLog"]), ([60928], []), ([], ["isoAddressClaim"]), ([127250], ["isoAddressClaim"])]
     filters += [([], [i]) for i in multi_ids] + [([127250], [multi_ids[-1]]), ([], multi_ids[:2] + ["windData"])]
-    all_ids = ["vesselHeading", "windData", "furunoHeave", "configurationInformation", "distanceLog"] + multi_ids
+    all_ids = ["vesselHeading", "windData", "furunoHeave", "configurationInformation", "distanceLog", "isoAddressClaim"] + multi_ids
     for _ in range({"quick": 6, "thorough": 40, "selftest": 0}[tier]):
-        filters.append((rng.sample([127250, 130306, 65280, 126998, 60416, 128275], rng.randint(0, 2)), rng.sample(all_ids, rng.randint(1, 3))))
+        filters.append((rng.sample([127250, 130306, 65280, 126998, 60416, 128275, 60928], rng.randint(0, 2)), rng.sample(all_ids, rng.randint(1, 3))))
     recs, meta = [], []
     for n, (nums, ids) in enumerate(filters):
         path = wd / f"dump{n}" / "out.jsonl"
         dec = NMEA2000Decoder(dump_to_file=str(path), dump_pgns=list(nums) + list(ids))
+        if n % 2:
+            dec.__enter__()             # every other session uses the decoder as a context manager (left by __exit__ below)
         out = []
         for ln in lines:
             try:
@@ -180,7 +186,10 @@ def dump_histories(db, rng: random.Random, wd, tier: str):
                 except Exception as e:     # noqa: BLE001      (no line of a dump file can equal this)
                     js = f"<to_json raised {type(e).__name__}>"
                 out.append({"pgn": m.PGN, "id": m.id, "json": js})
-        dec.close()
+        if n % 2:
+            dec.__exit__(None, None, None)
+        else:
+            dec.close()
         try:
             text = path.read_bytes().decode("utf-8")
             got = text.split("\n")
@@ -280,6 +289,35 @@ def bind(chk: Check, tier: str, seed: int):
             meta.append((d["id"], f"via-{route}"))
             n_routes += 1
     chk.add(messages_through_packet_routes=n_routes)
+    # the command line: `decode --frame <Actisense line>` prints the message's JSON, `encode --frame <JSON>` prints the
+    # Actisense line of the parsed message (one process per call)
+    import os
+    import subprocess
+    import sys as _sys
+    from nmea2000.encoder import NMEA2000Encoder
+
+    def cli(*args):
+        p = subprocess.run([_sys.executable, "-m", "nmea2000.cli", *args], cwd=str(wd), capture_output=True, text=True, timeout=120,
+                           env=dict(os.environ, PYTHONPATH=str(REPO)))
+        return [ln for ln in p.stdout.splitlines() if ln.strip()]
+    n_cli = 0
+    cli_defs = [d for d in defs if d["encodable"] and d["static"]][:: max(1, len(defs) // (6 if tier != "thorough" else 40))]
+    for d in (cli_defs if tier != "selftest" else cli_defs[:2]):
+        payload = corpus.build_payload(d, {}, rng)
+        try:
+            m = NMEA2000Decoder().decode_basic_string(corpus.basic_string(d["pgn"], payload, src=8, dst=255, prio=3), already_combined=True)
+            line = "A000001.000 " + NMEA2000Encoder().encode_actisense(m)
+            m = NMEA2000Decoder().decode_actisense_string(line)
+        except Exception:                  # noqa: BLE001
+            continue
+        if m is None:
+            continue
+        out = cli("decode", "--frame", line)
+        text = out[-1] if out else ""
+        recs.append(message_record(m, True, text=text, encode_json=lambda t: (cli("encode", "--frame", t) or [""])[-1]))
+        meta.append((d["id"], "via-command-line"))
+        n_cli += 1
+    chk.add(messages_through_the_command_line=n_cli)
     drecs, dmeta = dump_histories(db, rng, wd, tier)
     nmsg = len(recs)
     recs += drecs
